@@ -218,3 +218,27 @@ Proof.
   - injection H as <- <-. eapply quoted_items_ok; eassumption.
   - eapply quoted_items_ok; eassumption.
 Qed.
+
+(* the rebasing of an error over content characters [k1, k2) of a whole s-/f-string token is right exactly when the
+   token has one quote character and no escape sequence precedes the end of the error *)
+Theorem interp_token_correct_iff T s n items tok k1 k2 :
+  tables_ok T = true -> interp_items T s = Some (n, items) -> k1 <= k2 ->
+  (interp_reported tok items k1 k2 = interp_true tok n items k1 k2 <-> n = 1 /\ escapes_before items k2 = false).
+Proof.
+  intros OK H L. destruct (interp_items_ok T s n items OK H) as [Hn F].
+  apply interp_reported_correct_iff; assumption.
+Qed.
+
+Theorem interp_token_partial T s n items tok k1 k2 :
+  tables_ok T = true -> interp_items T s = Some (n, items) -> k1 <= k2 ->
+  n = 1 -> escapes_before items k2 = false ->
+  interp_reported tok items k1 k2 = interp_true tok n items k1 k2.
+Proof. intros OK H L N E. apply (interp_token_correct_iff T s n items tok k1 k2 OK H L). split; assumption. Qed.
+
+Theorem interp_token_reported_le T s n items tok k1 k2 :
+  tables_ok T = true -> interp_items T s = Some (n, items) ->
+  sp_start (interp_reported tok items k1 k2) <= sp_start (interp_true tok n items k1 k2) /\
+  sp_end (interp_reported tok items k1 k2) <= sp_end (interp_true tok n items k1 k2).
+Proof.
+  intros OK H. destruct (interp_items_ok T s n items OK H) as [Hn F]. apply interp_reported_le; assumption.
+Qed.
